@@ -7,7 +7,7 @@ CONSTANTS
   PrintTypes = {"b", "n", "q", "i", "x", "t", "l", "f", "d", "e"}
   IntFormats <- IntFormatsG
   FltFormats <- FltFormatsG
-  Lefts = {2, 6, 24}
+  Lefts = {2, 6, 24} FltLefts = {2, 6, 24}
   FmtAlphabet = {32, 102, 48, 50, 53, 54, 46}
   FmtLen = 4
   DestAlphabet = {32, 58, 48, 50, 53, 54}
